@@ -5,7 +5,7 @@
    Structs layer (coq/Structs/Machine.v), every history, every identity hash. *)
 From Salsa Require Import Base.
 From Salsa.Structs Require Import Model Dsl Machine ProofsStep Theorems Examples Guard SimBase Sim SimExamples
-     SSem SInv SRun STop SAdeq SDsl S1Examples.
+     ProofsBase SSem SInv SRun SStale STop STop2 SAdeq SDsl S1Examples S1b.
 
 (* C07_invariant: in every reachable state of the machine the ownership invariant holds: free-list
    entries are dead slots with their generation, dead slots have empty memo tables, every id
@@ -104,13 +104,13 @@ Check C07_field_check :
     (b = true <-> since < (if f =? 0 then sl_rev0 sl else sl_rev1 sl)).
 Print Assumptions C07_field_check.
 
-(* The full statement about dependents, kept visible; NOT proved (checks/notes/C07.txt):
-   "every dependency check on an id whose slot has been reused answers changed".  By
-   C07_field_check + C07_fresh_ids the field check on a reused slot answers changed exactly when
-   the new creator's changed_at stamp is later than the dependent's verified_at; that a
-   dependent holding a stale id always meets an earlier changed edge (its creator's) first is
-   the stage-2 `no_leak` lemma over whole programs (DESIGN section 7, C01 stage 2). *)
-Definition C07_dependents_full_statement : Prop :=
+(* The statement about dependents AS FIRST STATED ("every dependency check on an id whose slot has
+   been reused answers changed"), kept visible.  It is FALSE (C07_dependents_first_statement_refuted
+   below): the field check ignores the generation and compares the field's revision stamp with
+   the caller's `since`; a slot re-used by a creator whose reads are old carries an old stamp.
+   What protects a dependent is that an EARLIER edge of its memo answers changed:
+   C07_dependents_full_statement (corrected, below) and C07_stale_edge_partial. *)
+Definition C07_dependents_full_statement_as_first_stated : Prop :=
   forall (skind : N -> bool) (sfams : list N) (idhash : val -> N) (n : nat) iv idur es s F,
   mrun skind sfams idhash n (init iv idur, []) es = Some (s, F) ->
   forall h f since sl,
@@ -267,3 +267,137 @@ Example C07_dependents_nonvacuous :
   nth_error (snd (run_ops (prog_of r1_nk skind0 r1_nodes) skind0 [] r1_idhash 40%nat
                           (init (lookup3 r1_ival) (fun _ => 0)) r1_ops)) 0 = Some (SOk (3, [])).
 Proof. vm_compute. repeat split. Qed.
+
+(* The statement as first stated is false: in the reachable state of Examples.hist1 slot 2 has
+   been reused ((2,1) after (2,0)), (2,0) was issued, and the field check on (2,0) since
+   revision 1 answers unchanged. *)
+Theorem C07_dependents_first_statement_refuted : ~ C07_dependents_full_statement_as_first_stated.
+Proof. exact dependents_first_statement_refuted. Qed.
+Check C07_dependents_first_statement_refuted : ~ C07_dependents_full_statement_as_first_stated.
+Print Assumptions C07_dependents_first_statement_refuted.
+
+(* The full statement about dependents, corrected; NOT proved in this generality (struct-keyed
+   families, any durabilities; see Props/C06.v for the clause list (K), (D)).  After any prefix
+   of a handle-safe history of the executable model: take a stored memo m of a query q whose key
+   is current, claim q and walk m's recorded edges as deep verification does.  If the walk
+   answers at all and m has a tracked-field edge, or a call edge on a struct key, whose id is
+   not the current id of a live slot (deleted, or reused with a later generation), the answer is
+   "changed": m is not validated, no result belonging to the old struct is served. *)
+Definition C07_dependents_full_statement : Prop :=
+  forall (prog : qk -> body) (skind : N -> bool) (sfams : list N) (idhash : val -> N) (rank : qk -> nat) (NF : nat),
+  calls_below prog rank -> (forall q, (rank q < NF)%nat) ->
+  (forall fam, In fam sfams -> skind fam = true) ->
+  (forall e q, prov idhash e (prog q) [] (if skind (fst q) then [snd q] else [])) ->
+  (forall q, nospec (prog q)) ->
+  forall fuel iv idur os,
+  handle_safe prog skind sfams idhash fuel (init iv idur) os = true ->
+  1 + 2 * N.of_nat (length os) < GMAX ->
+  forall os1 os2, os = os1 ++ os2 ->
+  let s := fst (run_ops prog skind sfams idhash fuel (init iv idur) os1) in
+  forall q m n s' b,
+  peek_memo skind s (loc_of q) = Some m -> (if skind (fst q) then live s (snd q) else gk q) ->
+  m_verified m < cur s ->
+  walk_edges skind (level prog skind sfams idhash n) q (m_edges m) (m_verified m) (set_stack s [q]) = (s', SOk b) ->
+  (forall h f, In (EFld h f) (m_edges m) -> ~ live s' h -> b = true) /\
+  (forall fam h, In (EQ (fam, h)) (m_edges m) -> skind fam = true -> ~ live s' h -> b = true).
+
+(* C07_stale_edge_partial: the corrected statement, PROVED for the stage-S1b programs and
+   histories (no struct-keyed family, no specify, LOW durabilities; Props/C06.v
+   C06_from_scratch_writes_partial for the hypotheses).  Inside the proof (Structs/SVerify.v
+   walk_ok, Structs/SStale.v): when the walk reaches a field edge after a prefix of unchanged
+   edges, the handle was created by the memo's own query (then the memo lists it and it is live)
+   or was returned by a callee whose edge is in the prefix (then the callee's memo is verified in
+   this revision with an unchanged value, which lists the handle through a memo verified now). *)
+Theorem C07_stale_edge_partial :
+  forall (prog : qk -> body) (skind : N -> bool) (idhash : val -> N) (rank : qk -> nat) (NF : nat),
+  calls_below prog rank -> (forall q, (rank q < NF)%nat) ->
+  no_forge idhash prog -> (forall q, nospec (prog q)) -> (forall f, skind f = false) ->
+  (forall q d, calls (prog q) d -> gk d) -> (forall q d, calls (prog q) d -> first_read (prog d)) ->
+  forall fuel iv os,
+  s1b_ops prog true os -> 1 + 2 * N.of_nat (length os) < GMAX ->
+  Forall2 okout os (snd (run_ops prog skind [] idhash fuel (init iv (fun _ => 0)) os)) ->
+  forall os1 os2, os = os1 ++ os2 ->
+  let s := fst (run_ops prog skind [] idhash fuel (init iv (fun _ => 0)) os1) in
+  forall q m n s' b,
+  gk q -> d_memo s (loc_of q) = Some m -> m_verified m < cur s ->
+  walk_edges skind (level prog skind [] idhash n) q (m_edges m) (m_verified m) (set_stack s [q]) = (s', SOk b) ->
+  forall h f, In (EFld h f) (m_edges m) -> ~ live s' h -> b = true.
+Proof. exact stale_edges_S1b. Qed.
+Check C07_stale_edge_partial :
+  forall (prog : qk -> body) (skind : N -> bool) (idhash : val -> N) (rank : qk -> nat) (NF : nat),
+  calls_below prog rank -> (forall q, (rank q < NF)%nat) ->
+  no_forge idhash prog -> (forall q, nospec (prog q)) -> (forall f, skind f = false) ->
+  (forall q d, calls (prog q) d -> gk d) -> (forall q d, calls (prog q) d -> first_read (prog d)) ->
+  forall fuel iv os,
+  s1b_ops prog true os -> 1 + 2 * N.of_nat (length os) < GMAX ->
+  Forall2 okout os (snd (run_ops prog skind [] idhash fuel (init iv (fun _ => 0)) os)) ->
+  forall os1 os2, os = os1 ++ os2 ->
+  let s := fst (run_ops prog skind [] idhash fuel (init iv (fun _ => 0)) os1) in
+  forall q m n s' b,
+  gk q -> d_memo s (loc_of q) = Some m -> m_verified m < cur s ->
+  walk_edges skind (level prog skind [] idhash n) q (m_edges m) (m_verified m) (set_stack s [q]) = (s', SOk b) ->
+  forall h f, In (EFld h f) (m_edges m) -> ~ live s' h -> b = true.
+Print Assumptions C07_stale_edge_partial.
+
+(* Non-vacuity, and what the refutation looks like with a genuine `since`: rd is verified in
+   revision 2 with field edges on (0,0); in revision 3 mk deletes (0,0) and a second creator,
+   executing for the first time with an input changed in revision 2, reuses slot 0 as (0,1) with
+   field stamps 2.  The check of rd's field edge on (0,0) since 2 answers UNCHANGED; the walk over
+   rd's edges answers changed (at the edge on mk); the next Get re-executes rd and returns 99.
+   The hypotheses of C07_stale_edge_partial hold for this history. *)
+Example C07_stale_edge_nonvacuous :
+  (calls_below (prog_of r1_nk skind0 r3_nodes) (fun q => r3_frank (fst q)) /\ (forall q : qk, (r3_frank (fst q) < 2)%nat) /\
+   no_forge r1_idhash (prog_of r1_nk skind0 r3_nodes) /\ (forall q, nospec (prog_of r1_nk skind0 r3_nodes q)) /\
+   (forall f, skind0 f = false) /\
+   (forall q d, calls (prog_of r1_nk skind0 r3_nodes q) d -> gk d) /\
+   (forall q d, calls (prog_of r1_nk skind0 r3_nodes q) d -> first_read (prog_of r1_nk skind0 r3_nodes d)) /\
+   s1b_ops (prog_of r1_nk skind0 r3_nodes) true r3_ops /\ 1 + 2 * N.of_nat (length r3_ops) < GMAX /\
+   Forall2 okout r3_ops (snd (run_ops (prog_of r1_nk skind0 r3_nodes) skind0 [] r1_idhash 40%nat
+                                      (init (lookup3 r1_ival) (fun _ => 0)) r3_ops))) /\
+  (option_map m_verified (d_memo (fst (run_ops (prog_of r1_nk skind0 r3_nodes) skind0 [] r1_idhash 40%nat (init (lookup3 r1_ival) (fun _ => 0)) r3_ops)) (4, 0)) = Some 2 /\
+   option_map m_edges (d_memo (fst (run_ops (prog_of r1_nk skind0 r3_nodes) skind0 [] r1_idhash 40%nat (init (lookup3 r1_ival) (fun _ => 0)) r3_ops)) (4, 0))
+     = Some [EQ (1, (0, 0)); EFld (0, 0) 0; EFld (0, 0) 1] /\
+   option_map sl_gen (d_slots (fst (run_ops (prog_of r1_nk skind0 r3_nodes) skind0 [] r1_idhash 40%nat (init (lookup3 r1_ival) (fun _ => 0)) r3_ops)) 0) = Some 1 /\
+   snd (field_mca (0, 0) 0 2 (fst (run_ops (prog_of r1_nk skind0 r3_nodes) skind0 [] r1_idhash 40%nat (init (lookup3 r1_ival) (fun _ => 0)) r3_ops))) = SOk false /\
+   snd (step (prog_of r1_nk skind0 r3_nodes) skind0 [] r1_idhash 40%nat
+          (fst (run_ops (prog_of r1_nk skind0 r3_nodes) skind0 [] r1_idhash 40%nat (init (lookup3 r1_ival) (fun _ => 0)) r3_ops))
+          (OGet (4, (0, 0)))) = SOk (99, []) /\
+   hd_error (d_log (fst (step (prog_of r1_nk skind0 r3_nodes) skind0 [] r1_idhash 40%nat
+          (fst (run_ops (prog_of r1_nk skind0 r3_nodes) skind0 [] r1_idhash 40%nat (init (lookup3 r1_ival) (fun _ => 0)) r3_ops))
+          (OGet (4, (0, 0)))))) = Some (EvExec (4, (0, 0)))).
+Proof. exact (conj r3_hyps r3_stale_check_answers_unchanged). Qed.
+
+(* C07_dependents_writes_partial: C07_dependents_partial for the history class s1b_ops (synthetic
+   writes of any durability, cell writes while nothing is verified in the revision). *)
+Theorem C07_dependents_writes_partial :
+  forall (prog : qk -> body) (skind : N -> bool) (idhash : val -> N) (rank : qk -> nat) (NF : nat),
+  calls_below prog rank -> (forall q, (rank q < NF)%nat) ->
+  no_forge idhash prog -> (forall q, nospec (prog q)) -> (forall f, skind f = false) ->
+  (forall q d, calls (prog q) d -> gk d) -> (forall q d, calls (prog q) d -> first_read (prog d)) ->
+  forall fuel iv os,
+  s1b_ops prog true os -> 1 + 2 * N.of_nat (length os) < GMAX ->
+  Forall2 okout os (snd (run_ops prog skind [] idhash fuel (init iv (fun _ => 0)) os)) ->
+  forall os1 q os2, os = os1 ++ OGet q :: os2 ->
+  let s1 := fst (run_ops prog skind [] idhash fuel (init iv (fun _ => 0)) os1) in
+  let s' := fst (step prog skind [] idhash fuel s1 (OGet q)) in
+  exists v, snd (step prog skind [] idhash fuel s1 (OGet q)) = SOk v /\
+            (forall w, same_inputs (wcur s') w -> wcons prog idhash NF w q -> v = Ew idhash prog NF w q) /\
+            wcons prog idhash NF (wcur s') q /\
+            (forall h, In h (snd v) -> live s' h).
+Proof. exact dependents_S1b. Qed.
+Check C07_dependents_writes_partial :
+  forall (prog : qk -> body) (skind : N -> bool) (idhash : val -> N) (rank : qk -> nat) (NF : nat),
+  calls_below prog rank -> (forall q, (rank q < NF)%nat) ->
+  no_forge idhash prog -> (forall q, nospec (prog q)) -> (forall f, skind f = false) ->
+  (forall q d, calls (prog q) d -> gk d) -> (forall q d, calls (prog q) d -> first_read (prog d)) ->
+  forall fuel iv os,
+  s1b_ops prog true os -> 1 + 2 * N.of_nat (length os) < GMAX ->
+  Forall2 okout os (snd (run_ops prog skind [] idhash fuel (init iv (fun _ => 0)) os)) ->
+  forall os1 q os2, os = os1 ++ OGet q :: os2 ->
+  let s1 := fst (run_ops prog skind [] idhash fuel (init iv (fun _ => 0)) os1) in
+  let s' := fst (step prog skind [] idhash fuel s1 (OGet q)) in
+  exists v, snd (step prog skind [] idhash fuel s1 (OGet q)) = SOk v /\
+            (forall w, same_inputs (wcur s') w -> wcons prog idhash NF w q -> v = Ew idhash prog NF w q) /\
+            wcons prog idhash NF (wcur s') q /\
+            (forall h, In h (snd v) -> live s' h).
+Print Assumptions C07_dependents_writes_partial.
